@@ -1,4 +1,7 @@
 /-
+  UPDATE (build round 2): the bridge `C03_kinds_faithful_statement` is PROVED (Properties/C03Kinds.lean); the unconditional unordered theorems are in Properties/C05AnyUn.lean.
+  (The text below is kept as written in round 1; where it says "missing" / "not proved", see the files above.)
+
   C05, the policy ANY end to end.
 
   `Model/LabelDPAny.lean` models `RetentionPolicy.ANY` through the whole of each
